@@ -63,13 +63,24 @@ class Num(enum.IntEnum):
 class Lvl(enum.Enum):
     LO = 1
     HI = 2
+
+class Kind(str, enum.Enum):
+    A = "ka"
+    B = "kb"
+
+class Perm(enum.IntFlag):
+    R = 4
+    W = 2
+
+Odd = enum.Enum("Odd", {"a-b": 1, "class": "kw"})
+from typing_extensions import TypeVar as XTypeVar
 '''
 
 # member pool: expression, weight
 SCALAR_EXPRS = ["int", "float", "bool", "str", "None"]
 NONSCALAR_EXPRS = [
     "List[int]", "List[str]", "Dict[str, int]", "Tuple[int, str]", "Tuple[int, ...]", "List[date]",
-    "date", "datetime", "UUID", "Decimal", "DC1", "DC2", "DC3", "Color", "Num", "bytes",
+    "date", "datetime", "UUID", "Decimal", "DC1", "DC2", "DC3", "Color", "Num", "Kind", "Perm", "bytes",
     "List[Union[int, date]]", "Dict[str, Union[None, int, str]]", "Literal['a', 1]", "Sequence[int]",
     "List[Optional[int]]",
 ]
@@ -88,13 +99,14 @@ CURATED_UNIONS = [
     "Union[Tuple[int, str], List[int]]", "Union[Color, int]", "Union[Num, str]", "Union[Literal['a', 1], int]",
     "Union[bytes, str]", "Union[List[Union[int, date]], str]", "Union[datetime, date, str]",
     "Union[date, datetime]", "Union[Dict[str, int], DC1, str]", "Union[float, str, None]",
+    "Union[int, Num]", "Union[Num, int]", "Union[Kind, str]", "Union[str, Kind, None]", "Union[Decimal, str]", "Union[None, int, str]",
 ]
 
 DECODE_INPUTS = [
     "None", "True", "False", "0", "1", "-1", "2", "7", "10**20", "0.0", "-0.0", "1.0", "1.5", "-2.5", "2.0",
     "float('nan')", "float('inf')", "1e20", "''", "'1'", "'1.5'", "'a'", "'abc'", "'123'", "' 1 '", "'true'",
     "'None'", "'2020-01-01'", "'2020-01-01T10:20:30'", "'r'", "'g'", "'eA==\\n'", "'12345678-1234-5678-1234-567812345678'",
-    "'\\u0663'", "'1_0'", "'nan'", "[]", "[1]", "[1, 2]", "['1']", "['a']", "[1, 'a']", "['2020-01-01']", "[[1]]", "[None]",
+    "'\\u0663'", "'1_0'", "'nan'", "'ka'", "4", "6", "[]", "[1]", "[1, 2]", "['1']", "['a']", "[1, 'a']", "['2020-01-01']", "[[1]]", "[None]",
     "[1.5]", "[True]", "{}", "{'x': 1}", "{'x': '1'}", "{'y': 's'}", "{'y': 's', 'z': 2}", "{'x': '2020-01-01'}",
     "{'a': 1}", "{'a': None}", "{'a': 'b'}", "{1: 2}", "{'x': 1, 'y': 's'}", "b'1'", "(1, 2)", "(1, 'a')", "[1, 's']",
 ]
@@ -108,7 +120,7 @@ ENCODE_VALUES = {
     "date": ["date(2020, 1, 1)"], "datetime": ["datetime(2020, 1, 1, 10, 20, 30)"],
     "UUID": ["UUID('12345678-1234-5678-1234-567812345678')"], "Decimal": ["Decimal('1.5')"],
     "DC1": ["DC1(x=1)"], "DC2": ["DC2(y='s', z=2)"], "DC3": ["DC3(x=date(2020, 1, 1))"],
-    "Color": ["Color.RED"], "Num": ["Num.TWO"], "bytes": ["b'x'"],
+    "Color": ["Color.RED"], "Num": ["Num.TWO", "Num.ONE"], "Kind": ["Kind.A"], "Perm": ["Perm.R", "Perm.R | Perm.W"], "bytes": ["b'x'"],
     "List[Union[int, date]]": ["[1, date(2020, 1, 1)]", "[2]"], "Dict[str, Union[None, int, str]]": ["{'a': None, 'b': 1, 'c': 's'}"],
     "Literal['a', 1]": ["'a'", "1"], "Sequence[int]": ["[3]"], "List[Optional[int]]": ["[None, 1]"],
 }
@@ -120,12 +132,14 @@ CURATED_ENC_UNIONS = [
     "Union[Decimal, date]", "Union[Color, Num, None]", "Union[date, datetime]", "Union[datetime, date]",
     "Union[bytes, str]", "Union[float, int, bool, str]", "Union[Tuple[int, str], List[int]]",
     "Union[Decimal, int]", "Union[UUID, int, None]", "Union[UUID, str]", "Union[Decimal, float, str]",
+    "Union[int, Num]", "Union[Num, int]", "Union[str, Kind, None]", "Union[Kind, str]", "Union[int, Num, date]", "Union[Perm, int]",
+    "Union[int, Perm, str, Kind]", "Union[float, Num]", "Union[bool, Num, str]",
 ]
 
 LIT_POOL = ["0", "1", "2", "-1", "True", "False", "'a'", "'1'", "''", "None", "Color.RED", "Color.GREEN",
-            "Num.ONE", "Lvl.LO", "Lvl.HI", "b'x'", "'r'", "1000", "'x y'"]
+            "Num.ONE", "Lvl.LO", "Lvl.HI", "b'x'", "'r'", "1000", "'x y'", "Odd['a-b']", "Odd['class']", "Kind.A"]
 LIT_INPUTS = ["0", "1", "2", "-1", "True", "False", "0.0", "1.0", "2.0", "-1.0", "1.5", "float('nan')", "'a'", "'1'", "''",
-              "None", "'r'", "'g'", "'eA==\\n'", "'eA=='", "'x'", "[]", "[1]", "{}", "'True'", "'None'", "10**20", "1000", "'x y'", "1000.0"]
+              "None", "'r'", "'g'", "'eA==\\n'", "'eA=='", "'x'", "[]", "[1]", "{}", "'True'", "'None'", "10**20", "1000", "'x y'", "1000.0", "'kw'", "'ka'"]
 LIT_ENC_EXTRA = ["0", "1", "2", "True", "False", "1.0", "0.0", "'a'", "'r'", "'zz'", "None", "Num.ONE", "Num.TWO", "Lvl.LO", "Color.GREEN",
                  "b'x'", "b'y'", "1000", "[]", "1000.0"]
 CURATED_LITS = ["Literal[1]", "Literal[1, True]", "Literal[0, False]", "Literal[True, 1]", "Literal['a']",
@@ -380,7 +394,12 @@ def classify_decode(members, d, observed, expected, accept) -> str:
                 r = accept(m, d)
                 if r[0] == "ok":   # first accepting non-scalar member declared before the matching scalar member
                     return "union-scalar-shadowed" if same(observed, r) else "other"
-    if NoneType in members and d is not None and observed[0] == "ok" and observed[1] is None:
+    # the None member's fallback expression: reached only when d's class is no scalar member, no non-scalar member
+    # accepts d and every scalar member declared before None refuses to coerce d
+    if (NoneType in members and d is not None and observed[0] == "ok" and observed[1] is None
+            and not (t in SCALARS and t in members)
+            and all(accept(m, d)[0] != "ok" for m in members if m not in SCALARS)
+            and all(accept(m, d)[0] != "ok" for m in members[:members.index(NoneType)] if m in SCALARS)):
         return "union-none-fallback"
     return "other"
 
@@ -697,7 +716,7 @@ def literal_part(ctx: vlib.Ctx, mod, mem: Members):
             lcases.append(f"LC [{'; '.join(lit_coq(l) for l in lits)}] {to_ouv(bdec(v))} {to_uv(v)} {to_ouv(observed)} {to_ouv(expected)}")
             linfo.append((expr, entry, vx, show(observed), show(expected), cls))
         # encode: a listed constant is packed like a value of its own class, anything else raises
-        evals = [(l, repr(l) if not isinstance(l, _enum.Enum) else f"{type(l).__name__}.{l.name}") for l in lits]
+        evals = [(l, repr(l) if not isinstance(l, _enum.Enum) else f"{type(l).__name__}[{l.name!r}]") for l in lits]
         evals += [(eval(x, mod.__dict__), x) for x in (LIT_ENC_EXTRA if not ctx.quick() or expr in CURATED_LITS else rng.sample(LIT_ENC_EXTRA, 5))]
         for v, vx in evals:
             observed = outcome(site.encode, v)
@@ -987,10 +1006,158 @@ def shapes_part(ctx: vlib.Ctx, mod, mem: Members):
     corr(ctx, "shape-optional-encode-model-vs-impl", oecases, oeinfo, "ocase", ["ocase_ok"])
 
 
+# ---------------------------------------------------------------------------
+# TypeVar positions: constraints x default x bound x position wrapper x entry point
+# ---------------------------------------------------------------------------
+TV_WRAPPERS = {  # name: (type template, input template, decode extractor, value template, encode extractor)
+    "bare": ("{T}", "{a}", "r", "{a}", "r"),
+    "optional": ("Optional[{T}]", "{a}", "r", "{a}", "r"),
+    "dictval": ("Dict[str, {T}]", "{{'k': {a}}}", "r['k']", "{{'k': {a}}}", "r['k']"),
+    "list": ("List[{T}]", "[{a}]", "r[0]", "[{a}]", "r[0]"),
+    "tuple": ("Tuple[{T}, int]", "[{a}, 1]", "r[0]", "({a}, 1)", "r[0]"),
+}
+TV_CONSTRAINT_SETS = [["int", "str"], ["str", "int"], ["int", "float"], ["float", "int"], ["int", "float", "List[int]"],
+                      ["date", "str"], ["str", "date"], ["List[int]", "str"], ["bool", "int", "str"], ["DC1", "DC2"],
+                      ["int", "Union[str, date]"], ["Decimal", "str"], ["Num", "int"], ["UUID", "date", "int"]]
+TV_TARGETS = ["int", "str", "float", "date", "List[int]", "DC1", "bool", "Decimal"]
+
+
+class TVSite:
+    def __init__(self, mod, constraints, default, bound, wrapper, entry):
+        ns = mod.__dict__
+        n = _MOD_COUNTER[0] = _MOD_COUNTER[0] + 1
+        self.mod, self.n, self.wrapper, self.entry = mod, n, wrapper, entry
+        for _f in getattr(typing, "_cleanups", []):
+            _f()
+        kw = ([f"default={default}"] if default else []) + ([f"bound={bound}"] if bound else [])
+        self.tvdef = f"XTypeVar('TV{n}', {', '.join(constraints + kw)})"
+        ttpl, self.in_tpl, self.dec_ex, self.val_tpl, self.enc_ex = TV_WRAPPERS[wrapper]
+        self.type_expr = ttpl.format(T=f"TV{n}")
+        self.snippet = f"TV{n} = {self.tvdef}\n"
+        if entry == "field":
+            self.snippet += f"@dataclass\nclass HV{n}(Generic[TV{n}], DataClassDictMixin):\n    x: {self.type_expr}\n"
+        xexec(self.snippet, ns)
+        self.tv = ns[f"TV{n}"]
+        self.tp = eval(self.type_expr, ns)
+        self.holder = f"HV{n}" if entry == "field" else ""
+        self.constraints = list(self.tv.__constraints__)
+        self.target = eval(default or bound, ns) if (default or bound) else None
+        self._dec = self._enc = None
+        self.descr = f"{self.type_expr} with TV{n} = TypeVar({', '.join(constraints + kw)})"
+
+    def decode(self, x):
+        ns = self.mod.__dict__
+        if self.entry == "field":
+            return ns[self.holder].from_dict({"x": x}).x
+        if self._dec is None:
+            self._dec = ns["BasicDecoder"](self.tp)
+        return self._dec.decode(x)
+
+    def encode(self, v):
+        ns = self.mod.__dict__
+        if self.entry == "field":
+            return ns[self.holder](x=v).to_dict()["x"]
+        if self._enc is None:
+            self._enc = ns["BasicEncoder"](self.tp)
+        return self._enc.encode(v)
+
+    def replay_base(self):
+        return {"src": SCHEMA_SRC + self.snippet, "entry": "shape-" + self.entry, "type_expr": self.type_expr, "holder": self.holder}
+
+
+def typevar_part(ctx: vlib.Ctx, mod, mem: Members):
+    rng = ctx.rng
+    tvcases, tvinfo = [], []
+    expr_of = {repr(eval(e, mod.__dict__)): e for e in SCALAR_EXPRS + NONSCALAR_EXPRS}
+    combos = []
+    for cs in TV_CONSTRAINT_SETS:
+        # constrained: no default / default = each constraint in turn (a default outside the constraints is rejected by typing)
+        for dflt in [None] + cs:
+            combos.append((cs, dflt, None))
+    for t in TV_TARGETS:
+        combos.append(([], t, None))          # default only
+        combos.append(([], None, t))          # bound only
+    for t, b in [("int", "float"), ("str", "int"), ("date", "str")]:
+        combos.append(([], t, b))             # default and bound: the default decides
+    rng.shuffle(combos)
+    combos = combos[:ctx.budget(60, len(combos))]
+    wnames = list(TV_WRAPPERS)
+    for ci, (cs, dflt, bound) in enumerate(combos):
+        for wrapper in ([wnames[ci % len(wnames)], "bare"] if ctx.quick() else wnames):
+            entry = "codec" if (ci + len(wrapper)) % 2 else "field"
+            try:
+                site = TVSite(mod, cs, dflt, bound, wrapper, entry)
+                site.decode  # noqa
+            except Exception as e:
+                ctx.notes.append(f"typevar site not built: {cs} default={dflt} bound={bound} {wrapper}/{entry}: {type(e).__name__}: {e}"[:200])
+                continue
+            constrained = bool(site.constraints)
+            members = site.constraints if constrained else [site.target, NoneType]
+            mixin = entry == "field"
+            ctx.hist("typevar_kind", ("constrained" if constrained else "unconstrained") + ("+default" if dflt else "") + ("+bound" if bound else "") + "/" + wrapper + "/" + entry)
+            # ---- decode
+            for dx in rng.sample(ORDER_SENSITIVE, 5) + rng.sample(DECODE_INPUTS, ctx.budget(3, 8)):
+                d = eval(dx, mod.__dict__)
+                if d is None and not constrained:
+                    continue      # "acts as Optional[bound]" depends on the enclosing position; not part of C11
+                accept = lambda m, d=d: mem.accept(m, d)
+                inx = site.in_tpl.format(a=dx)
+                whole = outcome(site.decode, eval(inx, mod.__dict__))
+                if wrapper == "optional" and d is None:
+                    expected = ("ok", None)
+                elif constrained:
+                    expected = ref_union_decode(members, d, accept)
+                else:
+                    expected = accept(site.target, d)
+                observed = whole if whole[0] == "raise" else outcome(lambda: eval(site.dec_ex, {"r": whole[1]}))
+                cls = classify_decode(members, d, observed, expected, accept) if (constrained and d is not None) else ("agree" if same(observed, expected) else "other")
+                ctx.count(("tv", tuple(cs), dflt, bound, wrapper, type(d).__name__, cls))
+                ctx.hist("typevar_decode_outcome", cls + "/" + observed[0])
+                if cls != "agree":
+                    ctx.fail(f"decode {site.descr} via {entry} <- {inx}: got {show(observed)}, property says {show(expected)}",
+                             dict(site.replay_base(), op="decode", input=inx, extract=site.dec_ex, observed=show(observed), expected=show(expected)),
+                             {"kind": cls, "op": "decode"} if cls != "other" else {"kind": cls, "op": "decode", "typevar": True})
+                if wrapper == "optional" and d is None:
+                    continue
+                cms = []
+                for i, m in enumerate(site.constraints):
+                    if m in SCALARS:
+                        cms.append(f"CS {KIND[m]} {to_ouv(accept(m, d))}")
+                    else:
+                        cms.append(f"CN {i} {to_ouv(accept(m, d))}")
+                fb = accept(site.target, d) if site.target is not None else ("raise", "x")
+                tvcases.append(f"TVC [{'; '.join(cms)}] {to_ouv(fb)} {to_uv(d)} {to_ouv(observed)}")
+                tvinfo.append((site.descr, entry, inx, show(observed), show(expected), cls))
+            # ---- encode
+            menc = lambda m, v: mem.encode(m, v, mixin)
+            vals = []
+            for m in (site.constraints if constrained else [site.target]):
+                vals += ENCODE_VALUES.get(expr_of.get(repr(m), ""), [])
+            for vx in rng.sample(vals, min(len(vals), 3)):
+                v = eval(vx, mod.__dict__)
+                j = next((k for k, mm in enumerate(members) if conforms(mm, v)), None)
+                if j is None:
+                    continue
+                expected = menc(members[j], v)
+                if expected[0] != "ok":
+                    continue
+                valx = site.val_tpl.format(a=vx)
+                whole = outcome(lambda: site.encode(eval(valx, mod.__dict__)))
+                observed = whole if whole[0] == "raise" else outcome(lambda: eval(site.enc_ex, {"r": whole[1]}))
+                cls = classify_encode(site, members, j, v, observed, expected, menc) if constrained else ("agree" if same(observed, expected) else "other")
+                ctx.count(("tv-enc", tuple(cs), dflt, bound, wrapper, type(v).__name__, cls))
+                ctx.hist("typevar_encode_outcome", cls + "/" + observed[0])
+                if cls != "agree":
+                    ctx.fail(f"encode {site.descr} via {entry} <- {valx}: got {show(observed)}, member {member_label(members[j])} gives {show(expected)}",
+                             dict(site.replay_base(), op="encode", input=valx, extract=site.enc_ex, observed=show(observed), expected=show(expected)),
+                             {"kind": cls, "op": "encode"} if cls != "other" else {"kind": cls, "op": "encode", "typevar": True})
+    corr(ctx, "typevar-decode-model-vs-impl", tvcases, tvinfo, "tvcase", ["tvcase_ok"])
+
+
 THEOREMS = [
     "C11_union_decode_partial", "C11_union_deviation_char", "C11_union_shadow_result", "C11_union_none_refuted",
     "C11_union_shadow_refuted", "C11_no_cross_coercion", "C11_scalars_first_no_shadow", "C11_union_result_from_member",
-    "C11_union_raises_iff", "C11_none_member_never_raises", "C11_deterministic", "C11_union_dedup_invisible", "C11_nested_union_partial", "C11_shape_positions", "C11_opt",
+    "C11_union_raises_iff", "C11_none_member_never_raises", "C11_deterministic", "C11_union_dedup_invisible", "C11_nested_union_partial", "C11_shape_positions", "C11_typevar_constraints_win", "C11_typevar_partial", "C11_opt",
     "C11_union_encode_partial", "C11_union_encode_refuted", "C11_literal_full", "C11_literal_encode_full",
     "C11_literal_returns_listed", "C11_literal_accepts_listed",
 ]
@@ -1031,6 +1198,7 @@ def run(ctx: vlib.Ctx):
     encode_part(ctx, mod, mem)
     literal_part(ctx, mod, mem)
     shapes_part(ctx, mod, mem)
+    typevar_part(ctx, mod, mem)
 
 
 # ---------------------------------------------------------------------------
